@@ -28,7 +28,29 @@ def main():
         if a.replay:
             rp = json.load(open(a.replay))
             return mod.replay(ctx, rp)
-        mod.run(ctx)
+        try:
+            mod.run(ctx)
+        except Exception as e:      # noqa
+            # An exception that comes out of the code under test (innermost
+            # frames in /repo) where the unchanged code does not raise means
+            # the property is no longer shown to hold: report it.  Anything
+            # else is an infrastructure error (exit 2).
+            tb = traceback.extract_tb(e.__traceback__)
+            in_repo = [f for f in tb if f.filename.startswith(common.REPO)]
+            traceback.print_exc()
+            if not in_repo:
+                return 2
+            fr = in_repo[-1]
+            ctx.violation(
+                'code-under-test-raised',
+                f'{type(e).__name__}: {str(e)[:200]} at '
+                f'{os.path.relpath(fr.filename, common.REPO)}:{fr.lineno} '
+                f'({fr.name}) while the check was running; the unchanged code '
+                f'does not raise here',
+                {'exception': type(e).__name__, 'message': str(e)[:500],
+                 'traceback': [f'{os.path.relpath(f.filename, "/")}:'
+                               f'{f.lineno} {f.name}' for f in tb][-12:]},
+                found_input=False)
         return ctx.finish()
     except Exception:           # infrastructure error: exit 2, not a violation
         traceback.print_exc()
